@@ -177,6 +177,37 @@ def gen_bosonic_nongauss(rng):
                       [dict(cls=rng.choice(["Fock", "Catstate"]), regs=[m], pars=[1]), dict(cls="Rgate", regs=[m], pars=[0.375])]])
 
 
+def gen_runopts(rng, backend):
+    """run options: `shots` as keyword and/or in the programs' run_options (the last program of a list wins, the
+    keyword wins over both), `modes` (None, [], a selection in arbitrary order); measurements without select so that
+    several shots are legal, plus (30%) a select / a feed-forward that makes LocalEngine.run refuse several shots.
+    Patterns differ BY DESIGN here (a list merges the options of all its programs), so only the correspondence, the
+    snapshot and the can_follow oracles look at these sessions."""
+    n = rng.randint(2, 3)
+    g = lambda m: dict(cls="Rgate", regs=[m], pars=[pg.dyadic(rng, -6, 6, nonzero=True)], dagger=rng.random() < 0.3)
+    d = lambda m: dict(cls="Dgate", regs=[m], pars=[pg.dyadic(rng, -2, 2, nonzero=True) / 2, 0.25])
+    def meas():
+        if backend == "gaussian" and rng.random() < 0.4:
+            return dict(cls="MeasureFock", regs=rng.sample(range(n), rng.randint(1, 2)), pars=[])
+        return dict(cls="MeasureHomodyne", regs=[rng.randrange(n)], pars=[rng.choice([0.0, 0.25])])
+    nseg = rng.choice([1, 2, 2])
+    segs = [[d(rng.randrange(n)), g(rng.randrange(n))] + [meas() for _ in range(rng.randint(0, 2))] for _ in range(nseg)]
+    bad = rng.random() < 0.3
+    if bad:
+        sg = rng.choice(segs)
+        if rng.random() < 0.5:
+            sg.append(dict(cls="MeasureHomodyne", regs=[0], pars=[0.0], select=rng.choice([0.0, 0.5])))   # select 0.0 is falsy
+        else:
+            sg += [dict(cls="MeasureHomodyne", regs=[1], pars=[0.0]), dict(cls="Dgate", regs=[0], pars=[dict(m=1, k=1), 0.0])]
+    kw = {}
+    if rng.random() < 0.6:
+        kw["shots"] = rng.choice([1, 2, 3])
+    if rng.random() < 0.6:
+        kw["modes"] = rng.choice([[], [0], rng.sample(range(n), 2), None])
+    return dict(backend=backend, n=n, opts=OPTS[backend], args={}, segs=segs, succ=[False] * nseg, run_kw=kw,
+                prog_shots=[rng.choice([None, None, 2, 3]) for _ in range(nseg)], noncomparable=True)
+
+
 def gen_history(rng, backend):
     """register histories that `can_follow` must tell apart / accept:
     v1: p1 deletes its last subsystem, p2 is built INDEPENDENTLY over the remaining live modes (same live modes, other
@@ -279,8 +310,8 @@ def exec_script(sf, spec, progs, script):
             if "run" in act:
                 ids = act["run"]
                 arg = [progs[i] for i in ids] if act.get("aslist") else progs[ids[0]]
-                res = eng.run(arg, args=run_args, compile_options=compile_options)
-                state = er.state_data(backend, res.state)
+                res = eng.run(arg, args=run_args, compile_options=compile_options, **dict(spec.get("run_kw") or {}))
+                state = None if res.state is None else er.state_data(backend, res.state)
             elif "reset" in act:
                 eng.reset(dict(act["reset"]))
             else:
@@ -302,7 +333,7 @@ def exec_script(sf, spec, progs, script):
     after = [er.snapshot(p) for p in progs]
     index = {id(p): i for i, p in enumerate(progs)}
     run_ids = [index.get(id(p.source if p.source is not None else p), -1) for p in eng.run_progs]
-    samples = None if eng.samples is None else [float(x) for x in np.asarray(eng.samples).reshape(-1)]
+    samples = None if eng.samples is None else [[float(x) for x in row] for row in np.asarray(eng.samples, dtype=float)]
     vals = [[None if r.val is None else [float(x) for x in np.atleast_1d(r.val)] for r in p.reg_refs.values()] for p in progs]
     return dict(steps=steps, err=err, in_call=in_call, run_ids=run_ids, samples=samples, vals=vals,
                 locked=[bool(p.locked) for p in progs], state=state, outcomes=outcomes,
@@ -316,14 +347,14 @@ def model_request(spec, script, outcomes, concat=False):
     ms = []
     for act in script:
         if "run" in act:
-            ms.append(dict(run=act["run"]))
+            ms.append(dict(run=act["run"], **{k: v for k, v in (spec.get("run_kw") or {}).items() if v is not None}))
         elif "reset" in act:
             ms.append(dict(reset=sorted([k, int(v)] for k, v in act["reset"].items())))
         else:
             ms.append(dict(fresh=sorted([k, int(v)] for k, v in spec["opts"].items())))
     return dict(op="eng.session", compiler=er.compiler_tables(spec["backend"]), backend=spec["backend"],
                 opts=sorted([k, int(v)] for k, v in spec["opts"].items()), progs=mprogs,
-                outcomes=[[er.rat(x) for x in o] for o in outcomes],
+                outcomes=[[[er.rat(x) for x in col] for col in o] for o in outcomes],
                 args=[[k, er.rat(v)] for k, v in spec["args"].items()], script=ms, nmodes=nm)
 
 
@@ -377,11 +408,12 @@ def compare_session(ctx, case, real, model):
     me = model["eng"]
     if me["runIds"] != real["run_ids"]:
         ctx.disagree(pair + " (run_progs)", case, me["runIds"], real["run_ids"])
-    msam = None if me["samples"] is None else [f(x) for x in me["samples"]]
-    if (msam is None) != (real["samples"] is None) or (msam is not None and not np.allclose(msam, real["samples"], atol=1e-9)
-                                                       and len(msam) == len(real["samples"])) \
-            or (msam is not None and len(msam) != len(real["samples"])):
-        ctx.disagree(pair + " (samples)", case, msam, real["samples"])
+    msam = None if me["samples"] is None else [[f(x) for x in row] for row in me["samples"]]
+    rsam = real["samples"]
+    same = (msam is None) == (rsam is None) and (msam is None or (
+        len(msam) == len(rsam) and all(len(a) == len(b) and np.allclose(a, b, atol=1e-9) for a, b in zip(msam, rsam))))
+    if not same:
+        ctx.disagree(pair + " (samples)", case, msam, rsam)
     if me["prev"] != real["prev"]:
         ctx.disagree(pair + " (register of the last program)", case, me["prev"], real["prev"])
     for i, wp in enumerate(model["world"]):
@@ -408,7 +440,7 @@ def one_session(ctx, sf, spec, reqs, pending, kinds=("list", "seq", "cat", "rese
     rp = dict(kind="session", spec=spec)
     ctx.count(f"session:{backend}:{k}seg", spec, nontrivial(spec), sample=spec)
     for pat in kinds:
-        if pat == "cat" and not coherent:
+        if pat == "cat" and (not coherent or spec.get("noncomparable")):
             continue
         cache = {} if spec.get("share") else None      # shared Operation instances within and across the programs
         try:
@@ -458,6 +490,7 @@ def one_session(ctx, sf, spec, reqs, pending, kinds=("list", "seq", "cat", "rese
                 lastm.update(dict(zip(op["regs"], sel)))
         want = [lastm[r] for r in sorted(lastm)]
         got = results["cat"]["samples"]
+        got = got if got is None else (got[0] if got else [])
         if want and None not in want:
             ctx.oracle_cases += 1
             if got is None or len(got) != len(want) or any(abs(a - b) > 1e-9 for a, b in zip(got, want)):
@@ -483,6 +516,9 @@ def one_session(ctx, sf, spec, reqs, pending, kinds=("list", "seq", "cat", "rese
         if all(fol) and err == "RuntimeError":
             ctx.fail(f"can-follow-rejected:{pat}:{backend}", f"{backend}: pattern '{pat}' rejected a program whose initial register "
                      "equals its predecessor's final register", rp)
+    if spec.get("noncomparable"):
+        ctx.tally("oracle:run-option session (patterns differ by design)")
+        return
     # ---- (C) the three patterns (+ reset, re-run) end in the same state
     if unmeasured_read(spec):
         ctx.tally("oracle:ill-formed (reads an unmeasured value)")
@@ -1058,6 +1094,8 @@ def run(ctx, sf):
                 spec = gen_evolving(rng, backend)
             if k % 6 == 1 and backend != "bosonic":
                 spec = gen_history(rng, backend)
+            if k % 6 == 4:
+                spec = gen_runopts(rng, backend)
             one_session(ctx, sf, spec, reqs, pending)
             if k % 3 == 1:
                 cross_backend_check(ctx, sf, spec)
